@@ -60,6 +60,15 @@ func scenarios(thorough bool) []e3drive.Scenario {
 	} else {
 		add(e3scn.Repro(4, o), 1)
 	}
+	// two GPUs, the far one slow to acknowledge the flush: the blocking D2H after a kernel completes in the
+	// driver's flush-return path (data answered before the last flush acknowledgement)
+	o2 := o
+	o2.GPUs, o2.FarFlushLatency = 2, 4
+	if thorough {
+		add(e3scn.Repro(4, o2), 2)
+	} else {
+		add(e3scn.Repro(4, o2), 1)
+	}
 	return scs
 }
 
